@@ -28,6 +28,9 @@ RULE = (
     "the preferred engine.  M-commute additionally judges every commute() call made during backtracking on the "
     "actual target rows.  Non-trivial = backtracking or a transfer actually happened; distinct = (operation kind, "
     "flags, route taken, base skeleton)."
+    "  5 % of the cases are directed sort-over-sort requests on all-iteration bases (new sort terms are expressions "
+    "over the columns of an existing sort, rows tie under the new terms): the reference model treats a stable sort "
+    "of a determined list in an iteration engine as determined, so their row order is compared exactly. "
 )
 ASSUMPTIONS = [
     "reference model vmon/model.py, interpreter vmon/interp.py, SQLite + SQLAlchemy, real Processor subclass vmon/dbx.py",
@@ -72,7 +75,36 @@ def gen_final_op(rng, g, cols, eng):
     return {"kind": st[0][0], "node": st[0]}
 
 
+def sort_over_sort_case(rng):
+    """Directed: an all-iteration base ending `... -> transfer -> sort on plain columns` and a new
+    sort (to be inserted upstream) whose terms are expressions over those same columns, so that rows
+    tie under the new terms but differ in the existing sort's columns (order is asserted exactly)."""
+    g = gen.Gen(rng, gen.Cfg(engines=("it", "it2"), special_leaves=False, raw_leaves=False, max_rows_choices=(3, 5, 8)))
+    cols = sorted(rng.sample("abc", rng.randint(1, 3)))
+    state = g.leaf("it", want_cols=cols, allow_special=False)
+    if rng.random() < 0.4:
+        state = g.unary(state, rng.choice(["sel", "calc"])) or state
+    state = g.unary(state, "xfer") or state
+    old_cols = rng.sample(cols, rng.randint(1, min(2, len(cols))))
+    state = (["sort", state[0], [[["ref", c], rng.random() < 0.5] for c in old_cols], None], state[1], state[2])
+    if rng.random() < 0.3:
+        state = g.unary(state, rng.choice(["sel", "calc"])) or state
+    e = ["ref", old_cols[0]]
+    if len(old_cols) == 1:
+        e = [rng.choice(["mul", "sub"]), e, e] if rng.random() < 0.7 else ["mul", e, ["lit", 0]]
+    else:
+        e = [rng.choice(["add", "mul", "sub"]), e, ["ref", old_cols[1]]]
+    terms = [[e, rng.random() < 0.5]]
+    if rng.random() < 0.3:
+        terms.append([["ref", rng.choice(cols)], rng.random() < 0.5])
+    prog, pcols_, eng = state
+    return {"leaves": g.leaves, "prog": prog, "cols": sorted(pcols_), "engine": eng,
+            "final": {"kind": "sort", "node": ["sort", ["leaf", "__T__"], terms, None]}, "directed": "sort_over_sort"}
+
+
 def gen_case(rng, tier):
+    if rng.random() < 0.05:
+        return sort_over_sort_case(rng)
     cfg = gen.Cfg(
         engines=ENG,
         ops=("calc", "proj", "sel", "dedup", "sort", "slice", "chain", "join", "mat", "cap", "rev"),
